@@ -5,7 +5,9 @@ import json, os, shutil, glob, sys
 HERE = os.path.dirname(os.path.dirname(os.path.abspath(__file__)))
 matrix = json.load(open(os.path.join(HERE, 'seeded', 'matrix.json')))
 rows = []
-for rnd, incname in ((1, '_incoming'), (2, '_incoming2'), (3, '_incoming3'), (4, '_incoming4')):
+OOD = json.load(open(os.path.join(HERE, 'seeded', 'out_of_domain.json')))['seeds']
+ood_rows = []
+for rnd, incname in ((1, '_incoming'), (2, '_incoming2'), (3, '_incoming3'), (4, '_incoming4'), (5, '_incoming5')):
     INC = os.path.join(HERE, 'seeded', incname)
     if not os.path.exists(os.path.join(INC, 'validation.json')):
         continue
@@ -45,6 +47,11 @@ for rnd, incname in ((1, '_incoming'), (2, '_incoming2'), (3, '_incoming3'), (4,
                           'rules': {c: row[c].get('rules') for c in caught}},
         }
         json.dump(meta, open(os.path.join(dst, 'meta.json'), 'w'), indent=1, ensure_ascii=False)
+        if mkey in OOD:
+            meta['out_of_domain'] = OOD[mkey]
+            json.dump(meta, open(os.path.join(dst, 'meta.json'), 'w'), indent=1, ensure_ascii=False)
+            ood_rows.append((sid, OOD[mkey], caught))
+            continue
         rows.append((sid, prop, (am.get('summary') or '')[:150].replace('\n', ' ').replace('|', '/'), caught, own))
 with open(os.path.join(HERE, 'seeded', 'README.md'), 'w') as f:
     f.write('# Seeded changes and which checks report them\n\n')
@@ -52,6 +59,9 @@ with open(os.path.join(HERE, 'seeded', 'README.md'), 'w') as f:
     f.write('| seed | summary | caught by own check | caught by |\n|---|---|---|---|\n')
     for sid, prop, summ, caught, own in rows:
         f.write('| %s | %s | %s | %s |\n' % (sid, summ, 'yes' if own else '**no**', ' '.join(caught)))
+    f.write('\n## Outside the property\'s domain (seeded/out_of_domain.json has the argument)\n\n| seed | why | checks that report it anyway |\n|---|---|---|\n')
+    for sid, why, caught in ood_rows:
+        f.write('| %s | %s | %s |\n' % (sid, why, ' '.join(caught) or 'none'))
     f.write('\n## Reverted fixes (seeded/_revert)\n\n| patch | caught by |\n|---|---|\n')
     for key in sorted(matrix):
         if key.startswith('F'):
